@@ -52,7 +52,7 @@ def apply(state, op, depth=0):
     name = op['op']
     if name == 'txn':
         return _txn(state, op, depth)
-    if name == 'sleep':
+    if name in ('sleep', 'close'):
         return state, OK_NONE
     if name == 'len':
         return state, ('ok', fp(len(state)))
